@@ -6,6 +6,7 @@
   reducing function `f`, an arbitrary `float()` oracle `F`, arbitrary phases, values and histories.
 -/
 import Proofs.Lemmas.ContainerRun
+import Proofs.Lemmas.ContainerFrame
 import Proofs.Lemmas.ComposeCycles
 import Proofs.Lemmas.ComposeStats
 import Proofs.Lemmas.ComposeContainer
@@ -19,7 +20,9 @@ open Container
     cycle, the label vector is a well-formed complete partition, names are unique). -/
 theorem Inv_init (g : Cycles.GoodCfg) (pstep thr : Rat) (cache : Bool) (ph : List Rat) :
     Inv (init g pstep thr cache ph).1 := by
-  rw [init_eq]; exact addMetric_inv _ _ _ (init0_inv pstep thr cache ph)
+  rw [init_eq]
+  exact computeMetric_preserves Container.Inv _ _ _ _ _ (init0_inv pstep thr cache ph)
+    (fun _ => addMetric_inv _ _ _ (init0_inv pstep thr cache ph))
 
 /-- The constructor stores the quality flag of every cycle: entry k is the acceptance test on
     exactly the phase samples labelled k — whether the cache is on or off. -/
@@ -27,16 +30,16 @@ theorem init_is_good (g : Cycles.GoodCfg) (pstep thr : Rat) (cache : Bool) (ph :
     let s := (init g pstep thr cache ph).1
     sget s.metrics isGoodName = some ((List.range s.K).map fun (k : Nat) => some (isGoodF g (samplesOf s.cv ph (k : Int)))) := by
   have h0 := init0_inv pstep thr cache ph
-  simp only [init_eq, computeMetric_ok _ h0, sget_sset_same]
-  rw [cycleStat_any_cache _ false .cycle _ _ _ h0.cv _ (fun _ => init0_cv_length pstep thr cache ph)]
-  simp [cycleStat, lookupStat, nLabels_eq h0.cv.1]
+  simp only [init_eq, computeMetric_ok _ h0 _ _ _ _ (init0_cv_length pstep thr cache ph), sget_sset_same]
+  rw [cycleStat_any_cache _ false .cycle _ _ _ h0.cv _ (init0_cv_length pstep thr cache ph)]
+  simp [cycleStatV, lookupStat, nLabels_eq h0.cv.1]
 
 /-- A new container has no selection, so `chain_ind` tracking and condition tracking start out true. -/
 theorem init_no_selection (F : List Char → Option Rat) (g : Cycles.GoodCfg) (pstep thr : Rat) (cache : Bool) (ph : List Rat) :
     (init g pstep thr cache ph).1.sel = none ∧ Tracked (init g pstep thr cache ph).1 ∧
       Synced F (init g pstep thr cache ph).1 := by
   have h : (init g pstep thr cache ph).1.sel = none := by
-    rw [init_eq, computeMetric_ok _ (init0_inv pstep thr cache ph)]; rfl
+    rw [init_eq, computeMetric_ok _ (init0_inv pstep thr cache ph) _ _ _ _ (init0_cv_length pstep thr cache ph)]; rfl
   refine ⟨h, ?_, ?_⟩
   · intro sel hs; rw [h] at hs; cases hs
   · intro sel hs; rw [h] at hs; cases hs
@@ -59,14 +62,18 @@ theorem Inv_run (F : List Char → Option Rat) (g : Cycles.GoodCfg) (pstep thr :
   have hG : HasGood (run F (init g pstep thr cache ph).1 ops) := by
     apply run_good
     rw [init_eq]; unfold HasGood
-    rw [computeMetric_ok _ (init0_inv pstep thr cache ph), sget_sset_same]; rfl
+    rw [computeMetric_ok _ (init0_inv pstep thr cache ph) _ _ _ _ (init0_cv_length pstep thr cache ph), sget_sset_same]; rfl
   exact ⟨hI.lens, hI.names, hG, fun sel hs => ⟨(hI.sel sel hs).len, (hI.sel sel hs).rank, (hI.sel sel hs).chain⟩⟩
 
 /-- The invariant is preserved along every operation sequence, from every state that satisfies it. -/
 theorem Inv_run_from (F : List Char → Option Rat) (s : State) (ops : List Op) (h : Inv s) : Inv (run F s ops) :=
   run_inv F s ops h
 
-/-- The length guard: a metric with the wrong number of entries is rejected and nothing changes. -/
+/-- The length guard: a metric with the wrong number of entries is rejected and nothing changes.
+    CANONICALISED: the pinned `add_cycle_metric` *returns* its `ValueError(...)` object instead of raising it
+    (emd/cycles.py, `return ValueError(...)`), so a caller sees no exception; the model answers `.error .value`
+    and the harness turns a returned exception into a raised one (c15.py ASSUMPTIONS).  What the theorem says
+    of the code is therefore only the second half: the store is left unchanged. -/
 theorem add_metric_guard (F : List Char → Option Rat) (s : State) (name : Name) (v : List Val) (h : v.length ≠ s.K) :
     step F s (.addMetric name v) = (s, .error .value) := by
   simp [step, addMetric, h]
@@ -74,26 +81,27 @@ theorem add_metric_guard (F : List Char → Option Rat) (s : State) (name : Name
 /-! ## Metric values -/
 
 /-- A computed metric (cycle mode) has entry k = f applied to exactly the samples labelled k, for
-    every reducing function, with the cache on or off. -/
+    every reducing function, with the cache on or off — given one value per sample (`hv`; the code
+    checks nothing, see `cache_relevant_short_vals`). -/
 theorem metric_value (F : List Char → Option Rat) (s : State) (h : Inv s) (name : Name) (vals : List Rat)
     (f : List Rat → Rat) (hv : vals.length = s.cv.length) :
     (step F s (.computeMetric name vals f .cycle)).2 = .ok .done ∧
     sget (step F s (.computeMetric name vals f .cycle)).1.metrics name =
       some ((List.range s.K).map fun (k : Nat) => some (f (samplesOf s.cv vals (k : Int)))) := by
-  simp only [step, computeMetric_ok _ h, sget_sset_same, true_and]
-  rw [cycleStat_any_cache _ false .cycle _ _ _ h.cv _ (fun _ => hv)]
-  simp [cycleStat, lookupStat, nLabels_eq h.cv.1]
+  simp only [step, computeMetric_ok _ h _ _ _ _ hv, sget_sset_same, true_and]
+  rw [cycleStat_any_cache _ false .cycle _ _ _ h.cv _ hv]
+  simp [cycleStatV, lookupStat, nLabels_eq h.cv.1]
 
 /-- A computed metric (augmented mode): entry k = f on the augmented segment of cycle k, NaN when
-    there is none, with the cache on or off. -/
+    there is none, with the cache on or off — given one value per sample (`hv`). -/
 theorem metric_value_augmented (F : List Char → Option Rat) (s : State) (h : Inv s) (name : Name) (vals : List Rat)
-    (f : List Rat → Rat) :
+    (f : List Rat → Rat) (hv : vals.length = s.cv.length) :
     (step F s (.computeMetric name vals f .augmented)).2 = .ok .done ∧
     sget (step F s (.computeMetric name vals f .augmented)).1.metrics name =
       some ((List.range s.K).map fun (k : Nat) => (augInds s.thr s.phase s.cv k).map fun seg => f (sliceVals vals seg)) := by
-  simp only [step, computeMetric_ok _ h, sget_sset_same, true_and]
-  rw [cycleStat_any_cache _ false .augmented _ _ _ h.cv _ (by intro e; cases e)]
-  simp only [cycleStat, lookupAugStat, nLabels_eq h.cv.1]
+  simp only [step, computeMetric_ok _ h _ _ _ _ hv, sget_sset_same, true_and]
+  rw [cycleStat_any_cache _ false .augmented _ _ _ h.cv _ hv]
+  simp only [cycleStatV, lookupAugStat, nLabels_eq h.cv.1]
   congr 1
   apply List.map_congr_left
   intro k _
@@ -266,7 +274,7 @@ theorem chain_ind_agrees (F : List Char → Option Rat) (g : Cycles.GoodCfg) (ps
       exact ih (fun op hop => hops op (by simp [hop])) _ (step_inv F s o hI) (tracked_step F s o hI hT (hops o (by simp)))
   have h0 : Tracked (init g pstep thr cache ph).1 := by
     intro sel hsel
-    rw [init_eq, computeMetric_ok _ (init0_inv pstep thr cache ph)] at hsel
+    rw [init_eq, computeMetric_ok _ (init0_inv pstep thr cache ph) _ _ _ _ (init0_cv_length pstep thr cache ph)] at hsel
     simp [init0] at hsel
   intro s sel hsel
   exact ⟨_, key _ (Inv_init g pstep thr cache ph) h0 sel hsel, fun k j hj => chainInd_getElem? _ _ k j hj⟩
@@ -282,9 +290,12 @@ theorem selection_tracks_conditions (F : List Char → Option Rat) (s : State) (
   synced_step F s op hI h hop hpick
 
 /-- A chain metric: every selected cycle carries f of all samples of its chain (truncated to an integer
-    on the dtype=int route), every other cycle NaN (-1 on the integer route). -/
+    on the dtype=int route), every other cycle NaN (-1 on the integer route).  Stated for one value per
+    sample (`_hv`): `chainSamples` pairs labels with values positionally, the code indexes `vals` with the
+    chain's sample numbers and raises IndexError on a shorter vector (outside the model: the protocol
+    handler rejects such a vector for this operation). -/
 theorem chain_metric_value (F : List Char → Option Rat) (s : State) (h : Inv s) (sel : Sel) (hs : s.sel = some sel)
-    (name : Name) (vals : List Rat) (f : List Rat → Rat) (asInt : Bool) :
+    (name : Name) (vals : List Rat) (f : List Rat → Rat) (asInt : Bool) (_hv : vals.length = s.cv.length) :
     (step F s (.computeChainMetric name vals f asInt)).2 = .ok .done ∧
     ∃ col, sget (step F s (.computeChainMetric name vals f asInt)).1.metrics name = some col ∧
       ∀ (k : Nat) (j : Int), sel.subset[k]? = some j →
@@ -322,6 +333,57 @@ theorem chain_metric_value (F : List Char → Option Rat) (s : State) (h : Inv s
       cases sel.chain[j.toNat]? <;> rfl
     · simp [h0]
 
+/-- The `chain_position` metric (`compute_position_in_chain`, last step of `compute_chain_timings`): with a
+    selection in place the call succeeds, and entry k is -1 for a cycle that is not selected, otherwise the
+    number of selected cycles of the same chain that come before it (0 for the first cycle of a chain). -/
+theorem chain_position_spec (F : List Char → Option Rat) (s : State) (h : Inv s) (sel : Sel) (hs : s.sel = some sel) :
+    (step F s .computeChainTimings).2 = .ok .done ∧
+    ∃ col, sget (step F s .computeChainTimings).1.metrics chainPositionName = some col ∧
+      ∀ (k : Nat) (j : Int), sel.subset[k]? = some j →
+        col[k]? = some (some (if 0 ≤ j then
+            (match sel.chain[j.toNat]? with
+             | some c => (((sel.chain.take j.toNat).count c : Nat) : Rat)
+             | none => -1)
+          else -1)) := by
+  obtain ⟨h1, h2⟩ := chainTimings_position s h sel hs
+  exact ⟨h1, _, h2, fun k j hj => chainPosition_getElem? sel k j hj⟩
+
+/-- The routine itself (`Cycles.compute_position_in_chain`): ValueError without a selection, otherwise it
+    stores the vector described in `chain_position_spec` under `chain_position` and touches nothing else. -/
+theorem position_in_chain_spec (s : State) :
+    (s.sel = none → computePositionInChain s = (s, .error .value)) ∧
+    (∀ sel, s.sel = some sel → computePositionInChain s =
+        ({ s with metrics := sset s.metrics chainPositionName (chainPosition sel) }, .ok .done)) := by
+  refine ⟨fun hs => by simp [computePositionInChain, hs], fun sel hs => computePositionInChain_ok s sel hs⟩
+
+/-! ## Frame: an operation changes only what it names -/
+
+/-- **Frame.**  An operation leaves every metric it does not write exactly as it was (`Op.writes`: the name
+    given to compute / add / chain metric, the three timing names, the five chain-timing names, `chain_ind`
+    for a selection; nothing for exports and matching), never touches the label vector, the cycle count, the
+    phase, the threshold or the cache flag, and only a selection changes the selection. -/
+theorem metric_frame (F : List Char → Option Rat) (s : State) (op : Op) (name : Name) (hn : name ∉ op.writes) :
+    sget (step F s op).1.metrics name = sget s.metrics name ∧
+    (step F s op).1.cv = s.cv ∧ (step F s op).1.K = s.K ∧ (step F s op).1.phase = s.phase ∧
+    (step F s op).1.thr = s.thr ∧ (step F s op).1.cache = s.cache ∧
+    ((∀ c, op ≠ .pickSubset c) → (step F s op).1.sel = s.sel) :=
+  ⟨step_sget_other F s op name hn, (step_frame F s op).1, (step_frame F s op).2.1, (step_frame F s op).2.2.1,
+    (step_frame F s op).2.2.2.1, (step_frame F s op).2.2.2.2, step_sel_other F s op⟩
+
+/-- A stored metric persists unchanged through every sequence of operations none of which writes its name. -/
+theorem metric_persists (F : List Char → Option Rat) (s : State) (ops : List Op) (name : Name)
+    (hn : ∀ op ∈ ops, name ∉ op.writes) : sget (run F s ops).metrics name = sget s.metrics name :=
+  run_sget_other F s ops name hn
+
+/-- "After any sequence of operations": a metric computed at some point still has entry k = f on exactly the
+    samples labelled k after any later operations that do not write its name. -/
+theorem metric_value_persists (F : List Char → Option Rat) (s : State) (h : Inv s) (name : Name) (vals : List Rat)
+    (f : List Rat → Rat) (hv : vals.length = s.cv.length) (ops : List Op) (hn : ∀ op ∈ ops, name ∉ op.writes) :
+    sget (run F s (.computeMetric name vals f .cycle :: ops)).metrics name =
+      some ((List.range s.K).map fun (k : Nat) => some (f (samplesOf s.cv vals (k : Int)))) := by
+  rw [run_cons, metric_persists F _ ops name hn]
+  exact (metric_value F s h name vals f hv).2
+
 /-! ## The cache changes nothing -/
 
 /-- Slice cache = label lookup: on a well-formed label vector the k-th cached slice holds exactly the
@@ -333,12 +395,43 @@ theorem sliceCache_eq_lookup (cv : List Int) (K : Nat) (h : WF cv K) (vals : Lis
 
 /-- Turning the cache flag on or off before an operation changes neither its output nor the state it
     leads to (other than the flag itself) — for every operation, both metric modes, no regularity
-    assumption on the phase. -/
+    assumption on the phase.  Hypothesis `hv` (`Op.ValsOK`): a per-sample vector handed to
+    `compute_cycle_metric` has one value per sample, in BOTH modes.  It cannot be dropped
+    (`cache_relevant_short_vals`): the code has no length check and its two routes treat a short vector
+    differently.  A vector of another length is not a per-sample vector of the container's record, i.e. not
+    one of the inputs the property quantifies over ("compute metric" on the container's samples). -/
 theorem cache_irrelevant (F : List Char → Option Rat) (s : State) (op : Op) (h : Inv s) (hv : op.ValsOK s.cv.length) :
     (step F (setCache true s) op).2 = (step F (setCache false s) op).2 ∧
     (step F (setCache true s) op).1 = setCache true (step F (setCache false s) op).1 := by
   rw [step_setCache F true s op h hv, step_setCache F false s op h hv]
   exact ⟨rfl, rfl⟩
+
+/-- **Without one value per sample the cache is NOT irrelevant** (the hypothesis of `cache_irrelevant` is
+    needed, and the model keeps the code's behaviour): `compute_cycle_metric` checks no length; on a container
+    with at least one cycle and a value vector shorter than the record, the label-lookup route
+    (`use_cache=False`) raises IndexError and stores nothing, while the slice-cache route succeeds and stores
+    `f` of the clipped slices `vals[start:stop]`.  Real code, phase `[0.1,3.1,6.2]*4`, `vals=arange(7)`,
+    `np.sum`: cache on → `[3,12,6,0]`, cache off → IndexError (corpus case tagged `outside-domain`). -/
+theorem cache_relevant_short_vals (F : List Char → Option Rat) (s : State) (h : Inv s) (hK : 0 < s.K) (name : Name)
+    (vals : List Rat) (f : List Rat → Rat) (hv : vals.length < s.cv.length) :
+    step F (setCache false s) (.computeMetric name vals f .cycle) = (setCache false s, .error .index) ∧
+    (step F (setCache true s) (.computeMetric name vals f .cycle)).2 = .ok .done ∧
+    sget (step F (setCache true s) (.computeMetric name vals f .cycle)).1.metrics name =
+      some ((sliceCache s.cv).map fun sl => some (f (sliceVals vals sl))) := by
+  refine ⟨computeMetric_short_raises _ (inv_setCache false s h) rfl hK name vals f hv, ?_⟩
+  simp only [step, computeMetric_cache_ok _ (inv_setCache true s h) rfl, sget_sset_same, true_and]
+  simp [cycleStatV, sliceStat, setCache]
+
+/-- The same in augmented mode, on the example container (6 samples, 3 cycles) with 3 values: cache off
+    raises IndexError (the augmented segment of cycle 1 is samples 1..4), cache on stores a metric. -/
+theorem cache_relevant_short_vals_augmented (F : List Char → Option Rat) (f : List Rat → Rat) :
+    step F (setCache false exState) (.computeMetric ['a'] [1, 2, 3] f .augmented) = (setCache false exState, .error .index) ∧
+    (step F (setCache true exState) (.computeMetric ['a'] [1, 2, 3] f .augmented)).2 = .ok .done := by
+  constructor
+  · have := lookupAugStatE_short f exState.thr exState.phase exState.cv [1, 2, 3] 1 (by decide) (1, 5) exState_aug1
+      (by decide) (by decide)
+    simp only [step, computeMetric, setCache, cycleStat, this]
+  · simp only [step, computeMetric_cache_ok _ (inv_setCache true exState exState_inv) rfl]
 
 /-- Over a whole lifetime: two containers built from the same phase with the cache on and off go through
     the same states (up to the flag) and give the same outputs under every operation sequence. -/
@@ -351,11 +444,10 @@ theorem cache_irrelevant_run (F : List Char → Option Rat) (g : Cycles.GoodCfg)
   have hi : init g pstep thr true ph =
       (setCache true (init g pstep thr false ph).1, (init g pstep thr false ph).2) := by
     rw [init_eq, init_eq]
-    exact computeMetric_setCache true (init0 pstep thr false ph) h0 _ _ _ _ (fun _ => init0_cv_length pstep thr false ph)
+    exact computeMetric_setCache true (init0 pstep thr false ph) h0 _ _ _ _ (init0_cv_length pstep thr false ph)
   have hI := Inv_init g pstep thr false ph
   have hcv : (init g pstep thr false ph).1.cv.length = ph.length := by
-    rw [init_eq]; unfold computeMetric
-    rw [(addMetric_frame _ _ _).1]; exact (init0_cv_length pstep thr false ph).symm
+    rw [init_eq, (computeMetric_frame _ _ _ _ _).1]; exact (init0_cv_length pstep thr false ph).symm
   have := run_setCache F true (init g pstep thr false ph).1 ops hI (by rw [hcv]; exact hv)
   rw [hi]
   exact ⟨this.1, this.2, rfl⟩
@@ -417,13 +509,29 @@ example : WF [0, 0, 1, 1, 1, 2] 3 := exState_wf
 example (F : List Char → Option Rat) (f : List Rat → Rat) :=
   metric_value F exState exState_inv ['m'] [1, 2, 3, 4, 5, 6] f (by decide)
 example (F : List Char → Option Rat) (f : List Rat → Rat) :=
-  metric_value_augmented F exState exState_inv ['a'] [1, 2, 3, 4, 5, 6] f
+  metric_value_augmented F exState exState_inv ['a'] [1, 2, 3, 4, 5, 6] f (by decide)
 example := augmented_segment exState exState_inv 1 (by decide)
 example (F : List Char → Option Rat) (f : List Rat → Rat) :=
-  cache_irrelevant F exState (.computeMetric ['m'] [1, 2, 3, 4, 5, 6] f .cycle) exState_inv (by intro _; decide)
+  cache_irrelevant F exState (.computeMetric ['m'] [1, 2, 3, 4, 5, 6] f .cycle) exState_inv (by show ([1, 2, 3, 4, 5, 6] : List Rat).length = _; decide)
 example (F : List Char → Option Rat) (f : List Rat → Rat) :=
-  chain_metric_value F exState exState_inv _ rfl ['c'] [1, 2, 3, 4, 5, 6] f true
+  cache_irrelevant F exState (.computeMetric ['m'] [1, 2, 3, 4, 5, 6] f .augmented) exState_inv (by show ([1, 2, 3, 4, 5, 6] : List Rat).length = _; decide)
+example (F : List Char → Option Rat) (f : List Rat → Rat) :=
+  chain_metric_value F exState exState_inv _ rfl ['c'] [1, 2, 3, 4, 5, 6] f true (by decide)
 example (F : List Char → Option Rat) := pick_selects F exState exState_inv [['i', 's', '_', 'g', 'o', 'o', 'd', '=', '=', '1']]
+
+-- the cache is relevant for a short value vector: 3 values on the 6-sample example container
+example (F : List Char → Option Rat) (f : List Rat → Rat) :=
+  cache_relevant_short_vals F exState exState_inv (by decide) ['m'] [1, 2, 3] f (by decide)
+example (F : List Char → Option Rat) := chain_position_spec F exState exState_inv _ rfl
+-- cycles 0 and 2 selected as two chains: both are first in their chain, cycle 1 is not selected
+example : chainPosition { conds := [], subset := [0, -1, 1], chain := [0, 1] } = [some 0, some (-1), some 0] := by
+  decide +kernel
+example : chainPosition { conds := [], subset := [0, 1, 2, -1, 3], chain := [0, 0, 0, 1] } =
+    [some 0, some 1, some 2, some (-1), some 0] := by decide +kernel
+example (F : List Char → Option Rat) (f : List Rat → Rat) :=
+  metric_frame F exState (.computeMetric ['m'] [1, 2, 3, 4, 5, 6] f .cycle) isGoodName
+    (by show isGoodName ∉ [['m']]; decide)
+example (F : List Char → Option Rat) := metric_frame F exState (.pickSubset []) isGoodName (by decide)
 
 -- a condition with a negative decimal exponent literal: `dur>=-1.5e0`
 example (F : List Char → Option Rat) (h : F ['-', '1', '.', '5', 'e', '0'] = some (-3/2)) :
